@@ -1,10 +1,6 @@
 fn main() {
-  let mut bad = 0;
-  for seed in 1..300u64 {
-    let mut rng = vcore::rng::Rng::new(seed);
-    let t = vcore::lsphist::zoo(&mut rng, "AlphaWithAVeryLongSuffix", "Beta", "BetaWithAVeryLongSuffix", seed % 2 == 0);
-    let p = vcore::fmtcheck::parse(&t).unwrap();
-    if !p.syntax_errors.is_empty() { bad += 1; if bad < 3 { println!("{t}\n// {:?}", p.syntax_errors); } }
-  }
-  println!("zoo modules with syntax errors: {bad} of 299");
+  let seed: u64 = std::env::args().nth(1).and_then(|s| s.parse().ok()).unwrap_or(1);
+  let g = vcore::loopgen::generate(seed, true);
+  println!("# variant config:loop+inline (entry Main)\n//// module Main\n{}", g.project.modules[0].1);
+  eprintln!("{:?}", g.shapes);
 }
